@@ -79,6 +79,25 @@ def enclosing_branches(f: FuncInfo, node: ast.AST) -> List[Tuple[ast.If, bool]]:
     return path
 
 
+def resolve_local(f: FuncInfo, e: ast.expr, depth: int = 3) -> ast.expr:
+    """a local name that is bound exactly once in f (and is not a parameter) stands for the expression it was bound to"""
+    while depth > 0 and isinstance(e, ast.Name) and e.id not in f.all_params:
+        asg = [n for n in f.body_nodes() if isinstance(n, (ast.Assign, ast.AugAssign, ast.AnnAssign, ast.For)) and any(isinstance(t, ast.Name) and t.id == e.id for t in _targets(n))]
+        if len(asg) != 1 or not isinstance(asg[0], ast.Assign) or len(asg[0].targets) != 1 or not isinstance(asg[0].targets[0], ast.Name):
+            break
+        e = asg[0].value
+        depth -= 1
+    return e
+
+
+def _targets(n):
+    ts = n.targets if isinstance(n, ast.Assign) else [n.target]
+    out = []
+    for t in ts:
+        out.extend(x for x in ast.walk(t) if isinstance(x, ast.Name))
+    return out
+
+
 def branch_conds(f: FuncInfo, node: ast.AST) -> List[Tuple[str, bool]]:
     """enclosing_branches as (normalised text of the condition, truth value it has on the way to `node`), with a leading `not` folded into the truth value"""
     out = []
